@@ -6,7 +6,8 @@ EXPLANATION = (
     "Static decision on the MIR of /repo's working tree: (R-C17-cursor) in forward_device_data, when the request belongs to a shared group the read starts at the group's cursor "
     "(the copy `request.cursor = shared_group.cursor` lies on every path from the Some edge to native_readv), a member that is not the group's current client never reaches push_forwards, "
     "and every path from push_forwards to a return either writes the advanced cursor back to the group and moves to the next client, or has established that there is no group; "
-    "(R-C17-membership) SharedGroup.clients is changed only by add_client / remove_client, and both places that remove members drop groups that became empty. "
+    "(R-C17-membership) SharedGroup.clients is changed only by add_client / remove_client, both places that remove members drop groups that became empty, and the UNSUBSCRIBE arm takes the client out of the group of the filter given up only (one group looked up by key, or a key comparison guarding the removal inside retain); "
+    "(R-C17-key) a SharedGroup has one turn and one cursor, so the key under which prepare_filter finds it determines the topic filter: the provenance of the group argument at the call site contains the whole subscription path or both halves of extract_group's result (format!() is looked through), never the share name alone; "
     "(R-C17-skipped) in the drop-elaborated MIR of Router::consume the queue of requests set aside with ConsumeStatus::SkipRequest is never dropped on a normal path (it is handed back to the tracker on every exit), "
     "and the polled queue is dropped only behind pop_front()==None; "
     "(R-C17-index) every write of SharedGroup.current_client_index is 0, `% clients.len()` or gen_range over the half-open 0..clients.len(), so current_client() names a member while the group is non-empty; "
